@@ -135,13 +135,16 @@ class C10(SigBase):
         "the raw event of an interest is a counter (C09); a thread with a readable raw event does not block (C02/C09: label LBlock)",
         "OCaml log parser ocaml/signal_drv.ml.in: log segments -> labels (sig_lock = the only spin lock; descriptors of an interest "
         "from the harness's `A gr` line); segments of mutexes, waits, kicks, closes, task/timer callbacks are dropped",
-        "iv_signal_child_reset_postfork and registration in a forked child are modelled (child_reset_postfork) but not exercised: "
-        "the virtual fork shares memory with the parent",
+        "iv_signal_child_reset_postfork / registration in a forked child: modelled (child_reset_postfork); on the real code they run only "
+        "in harness/signal_smoke.c (real fork, real kernel, no timing assumptions), not under the virtual fork, which shares memory "
+        "with the parent",
+        "signal masks: mt.c keeps a virtual mask per thread (pthread_sigmask, logged as Sm) and the sa_mask of every handler (logged in "
+        "Sa); a pending signal is delivered at every yield point and right after a lock was acquired whenever the mask lets it through",
     ]
     assumptions = [
         "API contract (harness guards): an interest is unregistered by the thread that registered it, at most once, and its "
         "structure is not reused before that; signal numbers 1..63",
-        "all library handlers run with every signal blocked (sa_mask filled by iv_signal_register) -- provided by mt.c",
+        "delivery instants are the yield points of the baton scheduler plus the instant right after a lock acquisition",
     ]
     rule = ("scenarios = 1-3 loop threads (+ optional plain raiser thread), 1-5 interests per thread over 1-2 signals with all four flag "
             "combinations, deliveries directed at every thread / process-directed / to a forked child, raised from tasks, timers, signal "
@@ -470,6 +473,11 @@ class C11(SigBase):
             # several statuses in one completion, the first handler call unregisters: the rest must not be delivered
             "Bet;M30;L0:cn0 ir0=0 kr0;H0k0:cs0=s cs0=c cs0=k9;H0i0:iu0",
             "Bet;M30;L0:cn0 cn1 ir0=0 ir1=1 kr0 tr7+5000000;H0k0:cs0=s cs0=c cs1=s cs0=e0;H0i0:iu0 iu1;H0t7:iu0 iu1",
+            # two children exit before the SIGCHLD interest runs: one SIGCHLD, the reaper must drain both
+            "Bet;M30;L0:cn0 cn1 ir0=0 ir1=1 kr0 tr7+5000000;H0k0:cs0=e0 cs1=e0;H0t7:iu0 iu1",
+            # stop / continue are reported only because the library asks for them (WUNTRACED | WCONTINUED)
+            "Bet;M30;L0:cn0 ir0=0 kr0 tr7+5000000;H0k0:cs0=s;H0t7:iu0",
+            "Bet;M30;L0:is0=0 kr0 tr7+5000000;H0k0:cs0=s cs0=c;H0t7:iu0",
             # kill helper after the death was reaped but before the handler ran
             "Bet;M30;L0:cn0 ir0=0 kr0 tr7+5000000;H0k0:cs0=k9 y ik0=15;H0t7:ik0=9 iu0",
         ]
@@ -530,7 +538,7 @@ class C11(SigBase):
             m = re.match(r"A is\d+ pid=(\d+)", ev)
             if m:
                 owner[m.group(1)] = t
-            m = re.match(r"W4 (\d+) \d+$", ev.strip())
+            m = re.match(r"W4 (\d+) \d+( o=\S+)?$", ev.strip())
             if m and m.group(1) != "0":
                 if m.group(1) not in owner or owner[m.group(1)] != t:
                     feature = True
@@ -682,7 +690,7 @@ class C19(SigBase):
                 kills[m.group(1)] = kills.get(m.group(1), 0) + 1
                 if m.group(2) == "9":
                     feature = True
-            m = re.match(r"W4 (\d+) (\d+)$", ev.strip())
+            m = re.match(r"W4 (\d+) (\d+)( o=\S+)?$", ev.strip())
             if m and m.group(1) in owner:
                 st = int(m.group(2))
                 if owner[m.group(1)] != t:
@@ -745,3 +753,35 @@ def _c19_correspond_with_smoke(self, ctx, cases):
 
 
 C19.correspond = _c19_correspond_with_smoke
+
+
+# ---- real fork smoke run for C10 (the only place where iv_signal_register runs in a forked child) ----
+def _c10_smoke(self, ctx):
+    import subprocess
+    d = os.path.join(ctx.work, "sigsmoke")
+    ok, out = vlib.cc_build(d, "signal_smoke", ["signal_smoke.c"], vlib.LIB_SRCS)
+    if not ok:
+        return "signal_smoke does not build: " + out[-400:]
+    try:
+        p = subprocess.run([os.path.join(d, "signal_smoke")], stdout=subprocess.PIPE, stderr=subprocess.PIPE, text=True,
+                           errors="replace", timeout=120, env=dict(os.environ, **runner.ASAN_ENV))
+    except subprocess.TimeoutExpired:
+        return "signal_smoke: timeout"
+    if p.returncode != 0 or not p.stdout.startswith("OK"):
+        return "signal_smoke (real fork, real kernel): %s %s" % (p.stdout.strip(), p.stderr[-600:])
+    return None
+
+
+_c10_correspond = C10.correspond
+
+
+def _c10_correspond_with_smoke(self, ctx, cases):
+    st = _c10_correspond(self, ctx, cases)
+    if len(cases) > 10:
+        why = _c10_smoke(self, ctx)
+        if why:
+            st["crashes"].append((0, why))
+    return st
+
+
+C10.correspond = _c10_correspond_with_smoke
